@@ -14,11 +14,11 @@ use std::collections::BTreeMap;
 use std::panic::{catch_unwind, AssertUnwindSafe};
 use std::path::{Path, PathBuf};
 
-const ELIGIBLE_NAMES: [&str; 12] = [
-    "A.sol", "b.sol", "Token.sol", "x.t.solver.sol", ".sol", "\u{e9}t\u{e9}.sol", "a b.sol", "UP.sol", "d.t.sol.sol", "t.sol", "my.test.sol", "a-b:c.sol",
+const ELIGIBLE_NAMES: [&str; 16] = [
+    "\u{1F600}l.sol", "\u{30e1}\u{30e2}.sol", "a\u{e9}b.sol", "\u{e9}.sol", "A.sol", "b.sol", "Token.sol", "x.t.solver.sol", ".sol", "\u{e9}t\u{e9}.sol", "a b.sol", "UP.sol", "d.t.sol.sol", "t.sol", "my.test.sol", "a-b:c.sol",
 ];
-const INELIGIBLE_NAMES: [&str; 16] = [
-    "A.t.sol", "B.T.sol", "c.T.SOL", "e.SOL", "README.md", "f.sol.txt", "noext", "g.sol~", "h.tsol", "i..t.sol", "J.T.Sol", "k.t.SOL", ".t.sol",
+const INELIGIBLE_NAMES: [&str; 22] = [
+    "\u{e9}.json", "\u{30e1}\u{30e2}.txt", "x\u{1F600}.md", "\u{1F600}.rs", "\u{65e5}\u{672c}\u{8a9e}", "\u{e9}\u{e9}\u{e9}\u{e9}", "A.t.sol", "B.T.sol", "c.T.SOL", "e.SOL", "README.md", "f.sol.txt", "noext", "g.sol~", "h.tsol", "i..t.sol", "J.T.Sol", "k.t.SOL", ".t.sol",
     "x.Sol", "notes.t.sol", "\u{1e9e}.T.sol",
 ];
 
@@ -43,7 +43,36 @@ fn small_contract(rng: &mut Rng) -> String {
     s
 }
 
-fn populate(dir: &Path, rng: &mut Rng, depth: usize, counter: &mut usize, hostile: bool) {
+/// a contract for a new file: half of the time one already used in this tree (so that files with the same
+/// name in different directories can have exactly the same findings), else a fresh one
+fn pooled_contract(rng: &mut Rng, pool: &mut Vec<String>) -> String {
+    if !pool.is_empty() && rng.chance(1, 2) {
+        return pool[rng.below(pool.len())].clone();
+    }
+    let s = small_contract(rng);
+    pool.push(s.clone());
+    s
+}
+
+fn populate(dir: &Path, rng: &mut Rng, depth: usize, counter: &mut usize, hostile: bool, pool: &mut Vec<String>) {
+    if depth > 0 && rng.chance(1, 6) {
+        // directed shape: the same file (name and text) in several sibling directories and here
+        let name = ELIGIBLE_NAMES[rng.below(ELIGIBLE_NAMES.len())];
+        let src = pooled_contract(rng, pool);
+        for k in 0..(2 + rng.below(3)) {
+            let sub = dir.join(format!("twin{}", k));
+            if std::fs::create_dir(&sub).is_ok() {
+                *counter += 1;
+                let _ = std::fs::write(sub.join(name), &src);
+                if rng.chance(1, 3) {
+                    populate(&sub, rng, depth - 1, counter, hostile, pool);
+                }
+            }
+        }
+        if rng.chance(1, 2) {
+            let _ = std::fs::write(dir.join(name), &src);
+        }
+    }
     let n = 1 + rng.below(5);
     let mut names: Vec<(String, u8)> = vec![]; // 0 eligible file, 1 ineligible file, 2 dir
     for _ in 0..n {
@@ -63,7 +92,7 @@ fn populate(dir: &Path, rng: &mut Rng, depth: usize, counter: &mut usize, hostil
         *counter += 1;
         match kind {
             0 => {
-                let src = if hostile && rng.chance(1, 6) { "\u{0}\u{ff}garbage".to_string() } else { small_contract(rng) };
+                let src = if hostile && rng.chance(1, 6) { "\u{0}\u{ff}garbage".to_string() } else { pooled_contract(rng, pool) };
                 let _ = std::fs::write(&p, src);
             }
             1 => {
@@ -77,7 +106,7 @@ fn populate(dir: &Path, rng: &mut Rng, depth: usize, counter: &mut usize, hostil
             }
             _ => {
                 if std::fs::create_dir(&p).is_ok() {
-                    populate(&p, rng, depth - 1, counter, hostile);
+                    populate(&p, rng, depth - 1, counter, hostile, pool);
                 }
             }
         }
@@ -155,7 +184,8 @@ pub fn dir_requests(ctx: &mut Ctx, rng: &mut Rng) {
         let mut counter = 0;
         let hostile = k % 17 == 16;
         let depth = 1 + rng.below(3);
-        populate(&dir, rng, depth, &mut counter, hostile);
+        let mut pool: Vec<String> = vec![];
+        populate(&dir, rng, depth, &mut counter, hostile, &mut pool);
         let mut built = Built { enc: String::new(), sources: BTreeMap::new() };
         encode(&dir, &mut built);
         let target = dir.to_str().unwrap().to_string();
